@@ -161,6 +161,60 @@ Proof.
     + inversion H; subst; cbn in R1; discriminate.
 Qed.
 
+(* the stages of the straight part of _handle_pull_request, before update_integration_branches *)
+Definition inner_prefix_stage (s : stage) : bool :=
+  match s with
+  | SEarlyChecks | SGreetings | SComments | SDependencies | SClone | SDeclined | SDstIncludesSrc | SSrcExists
+  | SCommitDiff | SBuildCascade | SValidate1 | SBranchCompat | SJira | SCheckIntegration | SCreateIntegration
+  | SAlreadyInQueue | SMergeQueuesNested => true
+  | _ => false
+  end.
+
+Lemma inner_shape_f (f : stage -> bool) c o pos tr r :
+  (forall s, inner_prefix_stage s = true -> f s = false) ->
+  exec o pos (pr_inner c) = (tr, r) -> reaches f tr = true ->
+  exists q pos' tr', tr = inner_pre c q ++ tr' /\
+    exec o pos' (pr_update c) = (tr', r) /\ reaches f tr' = true.
+Proof.
+  unfold pr_inner, inner_pre, when. intros Hf H R.
+  do 5 (let t := fresh "t" in let R' := fresh "R" in
+        apply (exec_call f) in H; [ | eassumption | apply Hf; reflexivity ];
+        destruct H as (t & -> & H & R'); clear R; rename R' into R).
+  destruct (declined c).
+  - apply (exec_call f) in H; [ | eassumption | apply Hf; reflexivity ]. destruct H as (t' & -> & H & R').
+    clear R; rename R' into R.
+    apply (exec_callb f) in H; [ | eassumption | apply Hf; reflexivity ]. destruct H as (merged & t6 & -> & H & R6).
+    destruct merged; [cbn [exec] in H; inversion H; subst; cbn in R6; discriminate|].
+    apply (exec_callb f) in H; [ | eassumption | apply Hf; reflexivity ]. destruct H as (there & t7 & -> & H & R7).
+    destruct there; cbn [negb] in H; [|cbn [exec] in H; inversion H; subst; cbn in R7; discriminate].
+    clear R R6; rename R7 into R.
+    do 7 (let t := fresh "t" in let R' := fresh "R" in
+          apply (exec_call f) in H; [ | eassumption | apply Hf; reflexivity ];
+          destruct H as (t & -> & H & R'); clear R; rename R' into R).
+    destruct (use_queue c).
+    + apply (exec_callb f) in H; [ | eassumption | apply Hf; reflexivity ]. destruct H as (q & t8 & -> & H & R8).
+      exists q. destruct q.
+      * apply (exec_call f) in H; [ | eassumption | apply Hf; reflexivity ]. destruct H as (t9 & -> & H & R9).
+        eexists; eexists; (split; [reflexivity | split; eassumption]).
+      * eexists; eexists; (split; [reflexivity | split; eassumption]).
+    + exists false. eexists; eexists; (split; [reflexivity | split; eassumption]).
+  - apply (exec_callb f) in H; [ | eassumption | apply Hf; reflexivity ]. destruct H as (merged & t6 & -> & H & R6).
+    destruct merged; [cbn [exec] in H; inversion H; subst; cbn in R6; discriminate|].
+    apply (exec_callb f) in H; [ | eassumption | apply Hf; reflexivity ]. destruct H as (there & t7 & -> & H & R7).
+    destruct there; cbn [negb] in H; [|cbn [exec] in H; inversion H; subst; cbn in R7; discriminate].
+    clear R R6; rename R7 into R.
+    do 7 (let t := fresh "t" in let R' := fresh "R" in
+          apply (exec_call f) in H; [ | eassumption | apply Hf; reflexivity ];
+          destruct H as (t & -> & H & R'); clear R; rename R' into R).
+    destruct (use_queue c).
+    + apply (exec_callb f) in H; [ | eassumption | apply Hf; reflexivity ]. destruct H as (q & t8 & -> & H & R8).
+      exists q. destruct q.
+      * apply (exec_call f) in H; [ | eassumption | apply Hf; reflexivity ]. destruct H as (t9 & -> & H & R9).
+        eexists; eexists; (split; [reflexivity | split; eassumption]).
+      * eexists; eexists; (split; [reflexivity | split; eassumption]).
+    + exists false. eexists; eexists; (split; [reflexivity | split; eassumption]).
+Qed.
+
 Lemma inner_shape c o pos tr r :
   exec o pos (pr_inner c) = (tr, r) -> reaches lands tr = true ->
   exists q pos' tr', tr = inner_pre c q ++ tr' /\
@@ -757,3 +811,80 @@ Example approvals_refusal_run :
   snd (exec o 0 (pr_inner c)) = ORaise "ApprovalRequired" /\
   reaches lands (fst (exec o 0 (pr_inner c))) = false.
 Proof. vm_compute. auto. Qed.
+
+(* ---- the one except clause of _handle_pull_request ----------------------------------------------------------- *)
+(* What runs after update_integration_branches raised: on Conflict exactly one thing - the push of the integration
+   branches built so far - and then the Conflict goes on; on anything else nothing.  Together with
+   inner_refusal_is_final this covers every call site of the handler. *)
+Theorem inner_update_raise : forall c o pos tr r pre kd n post,
+  exec o pos (pr_inner c) = (tr, r) -> tr = pre ++ (SUpdate, ARaise kd n) :: post ->
+  reaches (is_stage SUpdate) pre = false ->
+  (n = "Conflict" -> exists a, post = [(SPushPartial, a)] /\ (a = AOk -> r = ORaise n)) /\
+  (n <> "Conflict" -> post = [] /\ r = ORaise n).
+Proof.
+  intros c o pos tr r pre kd n post H T P.
+  assert (R : reaches (is_stage SUpdate) tr = true).
+  { rewrite T, reaches_app, reaches_cons. cbn. rewrite orb_true_r. reflexivity. }
+  destruct (inner_shape_f (is_stage SUpdate) c o pos tr r) as (q & pos' & tr' & T' & E & R'); [|exact H|exact R|].
+  { intros s Hs. destruct s; cbn in Hs; try discriminate; reflexivity. }
+  unfold pr_update in E. unfold callb at 1 in E. cbn [exec] in E.
+  destruct (o pos' SInSync) as [ | b | | | ] eqn:Ei; cbn [exec] in E;
+    try (inversion E; subst; cbn in R'; discriminate).
+  destruct (o (S pos') SUpdate) as [ | b' | n' f' | kd' n' | ] eqn:Eu; cbn [exec] in E.
+  - (* returned: no raise of SUpdate at the first occurrence *)
+    destruct (exec o (S (S pos')) _) as [t2 r2] eqn:E2. injection E as <- <-.
+    rewrite T in T'.
+    assert (J : reaches (is_stage SUpdate) (inner_pre c q ++ [(SInSync, AB b)]) = false).
+    { rewrite reaches_app. unfold inner_pre. destruct (declined c), (use_queue c), q; reflexivity. }
+    replace (inner_pre c q ++ (SInSync, AB b) :: (SUpdate, AOk) :: t2)
+      with ((inner_pre c q ++ [(SInSync, AB b)]) ++ (SUpdate, AOk) :: t2) in T'
+      by (rewrite <- app_assoc; reflexivity).
+    destruct (first_split_unique (is_stage SUpdate) _ _ _ _ _ _ T' P J eq_refl eq_refl) as (_ & X & _).
+    discriminate X.
+  - injection E as <- <-. rewrite T in T'.
+    assert (J : reaches (is_stage SUpdate) (inner_pre c q ++ [(SInSync, AB b)]) = false).
+    { rewrite reaches_app. unfold inner_pre. destruct (declined c), (use_queue c), q; reflexivity. }
+    match type of T' with _ = inner_pre c q ++ (SInSync, AB b) :: [?x] =>
+      replace (inner_pre c q ++ (SInSync, AB b) :: [x])
+        with ((inner_pre c q ++ [(SInSync, AB b)]) ++ x :: []) in T' by (rewrite <- app_assoc; reflexivity) end.
+    destruct (first_split_unique (is_stage SUpdate) _ _ _ _ _ _ T' P J eq_refl eq_refl) as (_ & X & _).
+    discriminate X.
+  - injection E as <- <-. rewrite T in T'.
+    assert (J : reaches (is_stage SUpdate) (inner_pre c q ++ [(SInSync, AB b)]) = false).
+    { rewrite reaches_app. unfold inner_pre. destruct (declined c), (use_queue c), q; reflexivity. }
+    match type of T' with _ = inner_pre c q ++ (SInSync, AB b) :: [?x] =>
+      replace (inner_pre c q ++ (SInSync, AB b) :: [x])
+        with ((inner_pre c q ++ [(SInSync, AB b)]) ++ x :: []) in T' by (rewrite <- app_assoc; reflexivity) end.
+    destruct (first_split_unique (is_stage SUpdate) _ _ _ _ _ _ T' P J eq_refl eq_refl) as (_ & X & _).
+    discriminate X.
+  - rewrite T in T'.
+    assert (J : reaches (is_stage SUpdate) (inner_pre c q ++ [(SInSync, AB b)]) = false).
+    { rewrite reaches_app. unfold inner_pre. destruct (declined c), (use_queue c), q; reflexivity. }
+    destruct (String.eqb n' "Conflict") eqn:Ec; cbn [exec] in E.
+    + destruct (exec o (S (S pos')) _) as [t2 r2] eqn:E2. injection E as <- <-.
+      replace (inner_pre c q ++ (SInSync, AB b) :: (SUpdate, ARaise kd' n') :: t2)
+        with ((inner_pre c q ++ [(SInSync, AB b)]) ++ (SUpdate, ARaise kd' n') :: t2) in T'
+        by (rewrite <- app_assoc; reflexivity).
+      destruct (first_split_unique (is_stage SUpdate) _ _ _ _ _ _ T' P J eq_refl eq_refl) as (_ & X & Y).
+      injection X as -> ->. subst post.
+      apply String.eqb_eq in Ec. subst n'.
+      split; [|intros N; congruence]. intros _.
+      unfold call in E2. cbn [exec] in E2.
+      destruct (o (S (S pos')) SPushPartial) eqn:Ep; cbn [exec] in E2; injection E2 as <- <-;
+        (eexists; split; [reflexivity | intros A; try discriminate A; reflexivity]).
+    + injection E as <- <-.
+      replace (inner_pre c q ++ [(SInSync, AB b); (SUpdate, ARaise kd' n')])
+        with ((inner_pre c q ++ [(SInSync, AB b)]) ++ (SUpdate, ARaise kd' n') :: []) in T'
+        by (rewrite <- app_assoc; reflexivity).
+      destruct (first_split_unique (is_stage SUpdate) _ _ _ _ _ _ T' P J eq_refl eq_refl) as (_ & X & Y).
+      injection X as -> ->. subst post.
+      split; [intros ->; cbn in Ec; discriminate | intros _; split; reflexivity].
+  - injection E as <- <-. rewrite T in T'.
+    assert (J : reaches (is_stage SUpdate) (inner_pre c q ++ [(SInSync, AB b)]) = false).
+    { rewrite reaches_app. unfold inner_pre. destruct (declined c), (use_queue c), q; reflexivity. }
+    match type of T' with _ = inner_pre c q ++ (SInSync, AB b) :: [?x] =>
+      replace (inner_pre c q ++ (SInSync, AB b) :: [x])
+        with ((inner_pre c q ++ [(SInSync, AB b)]) ++ x :: []) in T' by (rewrite <- app_assoc; reflexivity) end.
+    destruct (first_split_unique (is_stage SUpdate) _ _ _ _ _ _ T' P J eq_refl eq_refl) as (_ & X & _).
+    discriminate X.
+Qed.
